@@ -27,6 +27,7 @@ class Access:
         self.writes = {}
         self.ptr_uses = {}  # cell id -> (type, [pos])
         self.names = {}     # cell id -> variable name
+        self.ptr_calls = {} # cell id -> [(static callee, argument index, pos)]
 
 
 def closure_access(run, cl, acc=None, depth=0, st=None, base_held=frozenset()):
@@ -93,6 +94,9 @@ def closure_access(run, cl, acc=None, depth=0, st=None, base_held=frozenset()):
                         closure_access(run, cv, acc, depth + 1, st, frozenset(held) | base_held)
                         stack_.discard(cv.fn)
                 if record:
+                    for ai, a in enumerate(list(c['args'])):
+                        if isinstance(a, str) and a in loaded_from and c.get('mode') == 'static':
+                            acc.ptr_calls.setdefault(loaded_from[a][0], []).append((c.get('callee'), ai, ins.get('pos')))
                     for a in list(c['args']) + [c.get('recv'), c.get('value')]:
                         if isinstance(a, str) and a in loaded_from:
                             cid, tn = loaded_from[a]
@@ -159,6 +163,80 @@ def closure_access(run, cl, acc=None, depth=0, st=None, base_held=frozenset()):
     return acc
 
 
+def writes_through_param(prog, fname, idx, depth=0, seen=None):
+    """does the function store through its idx-th parameter (or through anything loaded from it)?  Syntactic, on the
+    SSA: returns a position, 'unknown' when the value is handed to code that cannot be inspected, or None."""
+    seen = seen if seen is not None else set()
+    if (fname, idx) in seen:
+        return None
+    seen.add((fname, idx))
+    fn = prog.funcs.get(fname)
+    if fn is None or depth > 4:
+        return 'unknown (%s is not inspected)' % fname
+    if idx >= len(fn['params']):
+        return None
+    rooted = set()
+    pname = fn['params'][idx]['name']
+    # NaiveForm: parameters are spilled to Allocs; find the alloc the parameter is stored into
+    param_cells = set()
+    for blk in fn['blocks']:
+        for ins in blk['instrs']:
+            if ins['op'] == 'Store' and isinstance(ins.get('val'), dict) and ins['val'].get('p') == pname and isinstance(ins['addr'], str):
+                param_cells.add(ins['addr'])
+
+    def is_rooted(x):
+        if isinstance(x, dict):
+            return x.get('p') == pname
+        return isinstance(x, str) and x in rooted
+    changed = True
+    while changed:
+        changed = False
+        for blk in fn['blocks']:
+            for ins in blk['instrs']:
+                op = ins['op']
+                rid = ins.get('id')
+                if rid is None or rid in rooted:
+                    continue
+                hit = False
+                if op == 'UnOp' and ins.get('tok') == '*':
+                    x = ins['x']
+                    hit = (isinstance(x, str) and x in param_cells) or is_rooted(x)
+                elif op in ('FieldAddr', 'IndexAddr', 'Field', 'Index', 'Slice', 'ChangeType', 'Convert', 'MakeInterface', 'ChangeInterface', 'Phi'):
+                    xs = [ins.get('x')] + list(ins.get('edges', []) or [])
+                    hit = any(is_rooted(x) for x in xs)
+                if hit:
+                    rooted.add(rid)
+                    changed = True
+    for blk in fn['blocks']:
+        for ins in blk['instrs']:
+            op = ins['op']
+            if op == 'Store' and is_rooted(ins['addr']):
+                return ins.get('pos') or fname
+            if op == 'MapUpdate' and is_rooted(ins.get('map')):
+                return ins.get('pos') or fname
+            if op in ('Call', 'Go', 'Defer'):
+                c = ins['call']
+                for ai, a in enumerate(c['args']):
+                    if not is_rooted(a):
+                        continue
+                    if c.get('mode') == 'static' and c.get('callee') in prog.funcs:
+                        r = writes_through_param(prog, c['callee'], ai, depth + 1, seen)
+                        if r:
+                            return r
+                    elif c.get('mode') == 'builtin' or (c.get('callee') or '') in ('len', 'cap'):
+                        if c.get('callee') in ('copy',) and ai == 0:
+                            return ins.get('pos') or fname
+                        if c.get('callee') == 'append' and ai == 0:
+                            return ins.get('pos') or fname
+                    elif c.get('mode') == 'static':
+                        cal = c.get('callee') or ''
+                        if not any(cal.startswith(p_) for p_ in ('bytes.', 'sort.Search', 'fmt.', 'math.', 'strings.')):
+                            return 'unknown (%s)' % cal
+                    else:
+                        return 'unknown (dynamic call at %s)' % (ins.get('pos') or fname)
+    return None
+
+
 def exempt_type(run, tn):
     if tn is None:
         return True
@@ -179,7 +257,27 @@ def own_obligations(run):
         if o.startswith('readonly'):
             readonly.update(x.strip() for x in o[len('readonly'):].split(',') if x.strip())
     n_groups = 0
-    for gi, group in enumerate(run.fork_groups):
+    # goroutines started by `go` statements of one function all run concurrently with each other: one group
+    # (a literal started in a loop counts twice: several instances of it run at once)
+    groups = [g for g in run.fork_groups if g.get('kind') != 'go']
+    gos = [g for g in run.fork_groups if g.get('kind') == 'go']
+    if gos:
+        merged = dict(gos[-1])
+        tasks = []
+        seen_fn = set()
+        for g in gos:
+            for t in g['tasks']:
+                if t.fn in seen_fn:
+                    continue
+                seen_fn.add(t.fn)
+                tasks.append(t)
+                if g.get('multi'):
+                    tasks.append(t)
+        merged['tasks'] = tasks
+        merged['multi'] = False
+        merged['nescaped'] = max(g.get('nescaped', 0) for g in gos)
+        groups.append(merged)
+    for gi, group in enumerate(groups):
         tasks = group['tasks']
         if group.get('multi') and len(tasks) == 1:
             tasks = tasks * 2
@@ -234,6 +332,25 @@ def own_obligations(run):
                             continue
                         na, nb = A.names.get(ca, str(ca)), B.names.get(cb, str(cb))
                         if na in readonly and nb in readonly:
+                            # declared read-only: every function the tasks hand the pointer to is inspected for a store
+                            # through it (syntactic, transitive)
+                            for nm, cid_, X in ((na, ca, A), (nb, cb, B)):
+                                if ('ro', nm) in seen:
+                                    continue
+                                seen.add(('ro', nm))
+                                bad = None
+                                for callee, ai, pos_ in X.ptr_calls.get(cid_, []) + (B if X is A else A).ptr_calls.get(cid_, []):
+                                    w = writes_through_param(run.prog, callee, ai)
+                                    if w:
+                                        bad = '%s (argument %d of %s) -> %s' % (pos_, ai, callee, w)
+                                        break
+                                text = 'pointer %s is declared readonly for the tasks of a fork/join group%s' % (
+                                    nm, '' if not bad else ': written through, or handed to code that cannot be inspected: ' + bad)
+                                o = Obligation('%s/own#%d:readonly-%s' % (run.oname, len(run.obls) + 1, nm), 'own', run.fn['name'], text,
+                                               group.get('pos', ''), len(run.hyps), T.FALSE if bad else T.TRUE)
+                                o.result = {'result': 'sat' if bad else 'unsat', 'solver': 'store-through-parameter scan', 'time': 0.0,
+                                            'trivial': True, 'output': text, 'form': 'ground'}
+                                run.obls.append(o)
                             continue
                         key = ('ptr', tuple(sorted([na, nb])))
                         if key in seen:
